@@ -369,7 +369,7 @@ O("C14.vtodoify", "C14", "h_C14.c", "h_C14_vtodoify",
 
 # ------------------------------------------------------------------ C09 / C16 fillers
 P("C09", level="proof",
-  level_text="Function and loop contracts on the real sub-daily fillers of evrrul.c (iterators and calendar kernels by the contracts C19 / C01.k discharge; every loop has an in-place inductive loop contract incl. a lexicographic decreases clause): for every valid DTSTART, every well-formed BYxxx container state, INTERVAL up to 64 (quick) / 1440 (thorough) - the carries divide INTERVAL-sized sums, wide operands are out of reach -, any COUNT/UNTIL: all array accesses and shifts are in bounds, the function returns at most what was asked for, every loop terminates (the cursor strictly advances and stops at the end of the supported range), results are real date-times.",
+  level_text="Function and loop contracts on the real sub-daily fillers of evrrul.c (iterators and calendar kernels by the contracts C19 / C01.k discharge; every loop has an in-place inductive loop contract incl. a lexicographic decreases clause): for every valid DTSTART, every well-formed BYxxx container state, INTERVAL = 1 (quick) / up to 64 (thorough) - the carries divide INTERVAL-sized sums, wide operands are out of reach -, any COUNT/UNTIL: all array accesses and shifts are in bounds, the function returns at most what was asked for, every loop terminates (the cursor strictly advances and stops at the end of the supported range), results are real date-times.",
   level_note="Trusted: CBMC semantics and DFCC loop-contract instrumentation; RR_WF (containers well-formed, INTERVAL >= 1) as established by the parser (not verified: snarf_rrule uses libc). Covered fillers are listed in the evidence; rrul_fill_yly/mly and their helpers, make_enum and refill/next_evrrul are not covered.",
   not_covered=["rrul_fill_yly / rrul_fill_mly and the fill_yly_*/fill_mly_* helpers, clr_poss, shift", "make_enum time-of-day enumeration", "refill / next_evrrul cache indices", "snarf_rrule (libc strtol, gperf)"])
 P("C16", level="proof",
@@ -381,9 +381,9 @@ EF = dict(dfcc=True, loop_contracts=True, with_unwind=True,
           replace_status={"bi447_next": "discharged by C19.bi447_next", "bui31_next": "discharged by C19.bui31_next", "bi31_next": "discharged by C19.bi31_next",
                           "bui63_next": "discharged by C19.bui63_next", "ymd_get_wday": "discharged by C01.k.wday", "__get_ndom": "discharged by C01.k.wday"},
           solver=["minisat", "kissat"], mem_gb=24, timeout={"quick": 1500, "thorough": 7200}, replay=False, replay_note="callees replaced by contracts, symbolic container states",
-          defines={"quick": ["-DRR_INTER_MAX=64U"], "thorough": ["-DRR_INTER_MAX=1440U"]})
+          defines={"quick": ["-DRR_INTER_MAX=1U"], "thorough": ["-DRR_INTER_MAX=64U"]})
 O("C09.Sly", ["C09", "C16", "C01"], "h_C09.c", "h_C09_Sly",
-  "rrul_fill_Sly: memory safe, returns <= nti and <= COUNT, terminates, output strictly increasing, within [DTSTART, UNTIL], real date-times - for every valid DTSTART, every well-formed container state, INTERVAL 1..64 (quick) / 1..1440 (thorough)",
+  "rrul_fill_Sly: memory safe, returns <= nti and <= COUNT, terminates, output strictly increasing, within [DTSTART, UNTIL], real date-times - for every valid DTSTART, every well-formed container state, INTERVAL 1 (quick) / 1..64 (thorough, 24 min on this machine)",
   ["rrul_fill_Sly"], **EF)
 
 # ------------------------------------------------------------------ C05
